@@ -358,6 +358,8 @@ impl<R: RefCounter, PR: PathRefCounter, H: Header> Memory<R, PR, H> {
     opts: Options,
     f: impl FnOnce(MmapOptions, &std::fs::File) -> std::io::Result<memmap2::MmapMut>,
   ) -> std::io::Result<Self> {
+    check_offset::<H>(&opts)?;
+
     let (create_new, file) = opts.open(path.as_path())?;
     let file_size = file.metadata()?.len();
     let reserved = opts.reserved() as usize;
@@ -524,6 +526,8 @@ impl<R: RefCounter, PR: PathRefCounter, H: Header> Memory<R, PR, H> {
       .with_write(false)
       .with_append(false)
       .with_truncate(false);
+
+    check_offset::<H>(&opts)?;
 
     let (_, file) = opts.open(&path)?;
     let reserved = opts.reserved();
@@ -1076,6 +1080,20 @@ impl<R: RefCounter, PR: PathRefCounter, H: Header> Memory<R, PR, H> {
       }
     }
   }
+}
+
+/// The mapping starts at `offset` bytes from a page boundary, so the base address of the ARENA is
+/// only as aligned as the offset: the header and every aligned allocation rely on it.
+#[cfg(all(feature = "memmap", not(target_family = "wasm")))]
+#[inline]
+fn check_offset<H>(opts: &Options) -> std::io::Result<()> {
+  let alignment = opts.maximum_alignment().max(mem::align_of::<H>()) as u64;
+  if opts.offset % alignment != 0 {
+    return Err(invalid_input(
+      "the offset of the memory map must be a multiple of the maximum alignment",
+    ));
+  }
+  Ok(())
 }
 
 #[inline]
